@@ -88,6 +88,15 @@ class ResponseHandler(BaseProtocol, DataQueue[tuple[RawResponseMessage, StreamRe
             or self._payload_parser is not None
             or self._buffer
             or self._tail
+            or self._parser_holds_bytes()
+        )
+
+    def _parser_holds_bytes(self) -> bool:
+        # The beginning of a further message behind the response that just
+        # ended (visible with the pure-Python parser only).
+        parser = self._parser
+        return parser is not None and bool(
+            getattr(parser, "_tail", None) or getattr(parser, "_lines", None)
         )
 
     def force_close(self) -> None:
@@ -374,14 +383,15 @@ class ResponseHandler(BaseProtocol, DataQueue[tuple[RawResponseMessage, StreamRe
         for message, payload in messages:
             if message.should_close:
                 self._should_close = True
-            if message.code < 100 or message.code > 199:
-                if self._final_response_seen:
-                    # A further response after the final one of this exchange,
-                    # possibly in the same segment as the end of its body (the
-                    # connection may already be back in the pool by now).
-                    self._should_close = True
-                    if self.transport is not None:
-                        self.transport.close()
+            if self._final_response_seen:
+                # A further message (interim or final) after the final response
+                # of this exchange, possibly in the same segment as the end of
+                # its body (the connection may already be back in the pool).
+                self._should_close = True
+                if self.transport is not None:
+                    self.transport.close()
+            if message.code < 100 or message.code > 199 or message.code == 101:
+                # (101 ends the exchange for the caller as well)
                 self._final_response_seen = True
 
             self._payload = payload
@@ -390,6 +400,17 @@ class ResponseHandler(BaseProtocol, DataQueue[tuple[RawResponseMessage, StreamRe
                 self.feed_data((message, EMPTY_PAYLOAD))
             else:
                 self.feed_data((message, payload))
+
+        if (
+            self._final_response_seen
+            and (self._payload is None or self._payload.is_eof())
+            and self._parser_holds_bytes()
+        ):
+            # The start of a further message came with the end of the response;
+            # the connection may have been released while it was being parsed.
+            self._should_close = True
+            if self.transport is not None:
+                self.transport.close()
 
         if payload is not None:
             # new message(s) was processed
